@@ -73,6 +73,7 @@ func C06(p *core.Prog, rep *core.Report) {
 	v.vf3Merge()
 	m.ps5MergeOrder()
 	m.ps5Adoption()
+	rp1SkipBelow(p, rep)
 	// S7 merge-in-progress check-then-act (from the lock analysis)
 	full := core.NewReport("C09")
 	runLockRules(p, full, false)
@@ -114,6 +115,7 @@ func C18(p *core.Prog, rep *core.Report) {
 	m.ps5Adoption()
 	cd4Framing(p, rep)
 	v.vf3Merge()
+	rp1SkipBelow(p, rep)
 	rep.NotCovered = append(rep.NotCovered, "equality of the index built from the hint with the index built by scanning, for all merges")
 }
 
